@@ -680,3 +680,7 @@ CHECKS["C12"]["required_classes"]["all"] += ["burst:some-upgrades-were-dropped"]
 CHECKS["C10"]["required_classes"]["all"] += ["agent-with-password-policy(stored passwords do not meet it)"]
 CHECKS["C19"]["required_classes"]["all"] += ["agent-op:login-that-made-the-agent-rewrite-the-record"]
 CHECKS["C19"]["assumptions"] = CHECKS["C19"].get("assumptions", []) + ["a hash upgrade on login is an update made through the agent: it is a change that must be followed by a hook round (the code under test notifies from its update path)"]
+CHECKS["C16"]["required_classes"]["all"] += ["history:record-with-auxiliary-lines"]
+CHECKS["C01"]["required_classes"]["all"] += ["overlapping-updates-of-a-record-with-auxiliary-data"]
+CHECKS["C08"]["jobs"].append(J("overlapping-writers", VSTORE, "TestC01OverlappingWrites", {"shards": 2, "n": 40}, {"shards": 8, "n": 3000}, rapid=False))
+CHECKS["C08"]["required_classes"]["all"] += ["overlapping-updates-of-a-record-with-auxiliary-data"]
